@@ -10,6 +10,7 @@ trunc(x), is decided per ordering (x < trunc x, x > trunc x, x = trunc x) - a wr
 class, an unknown algorithm shape is UNDECIDED and trips the floor.  libm routines are mapped name-to-name, not shown numerically equal to std."""
 import re
 import terms as tm
+import tables
 from terms import mk, ite, const
 import lift
 from lift import ArgView, value_lanes, result_of, check_uniform, oracle_call, prim_paths, canon_float, flatten_aci, strip_ref, int_roundtrip_rewrite
@@ -191,6 +192,21 @@ def run(ctx):
                 ctx.holds('R-LIFT', cfg, name, src)
                 if n_lane % 150 == 7:
                     ctx.sample({'config': cfg, 'fn': name, 'lane0': tm.show(got, 0, 5)[:160], 'primitive': src})
+                continue
+            # value-equal alternatives the property itself grants ("-0 equals +0", clamp only for min <= max)
+            alts = []
+            sz_ = 4 if w == 'f32' else 8
+            if mname == 'clamp':
+                hi_ = prim(I, F, w, 'min', [a0[0], a0[2]])
+                if hi_ is not None:
+                    alts.append(prim(I, F, w, 'max', [hi_, a0[1]]))          # max(min(x, hi), lo): the same value whenever lo <= hi
+            if is_op and mname == 'neg':
+                alts.append(tm.f2('fadd', tm.fconst(0.0, sz_), tm.f1('fneg', a0[0])))   # 0 - x: differs from -x only in the sign of zero
+            if mname == 'abs':
+                alts.append(tables.sse_max(tm.f1('fneg', a0[0]), a0[0]))       # max(-x, x): |x| up to the sign of zero
+                alts.append(tables.sse_max(a0[0], tm.f1('fneg', a0[0])))
+            if any(a_ is not None and (got is a_ or canon_float(got) is canon_float(a_)) for a_ in alts):
+                ctx.holds('R-LIFT', cfg, name, src + ' (value-equal form)')
                 continue
             # not the primitive's term
             base = mname if not is_op else tr
